@@ -76,11 +76,14 @@ class LoopSpec:
     modifies: extra havoc targets: ('heap', obj, field) / ('ghost', name) / ('var', name); assigned local
     variables of the body are havocked automatically."""
 
-    def __init__(self, fingerprint, inv, modifies=(), ghost_start=None, ghost_end=None, no_end=False, every_element=False):
+    def __init__(self, fingerprint, inv, modifies=(), ghost_start=None, ghost_end=None, no_end=False, every_element=False, snapshot=False):
         """every_element: the loop's contract is per element (region contract): leaving the loop early (break / return from
         inside the body) would leave elements unprocessed - an obligation that fails on such a path"""
         self.fingerprint, self.inv, self.modifies = fingerprint, inv, list(modifies)
         self.ghost_start, self.ghost_end, self.no_end, self.every_element = ghost_start, ghost_end, no_end, every_element
+        # snapshot: the body hands control to code that may change the collection being walked (user callbacks re-entering
+        # the API): the loop must walk a private copy - an obligation on the loop header, checked before the fingerprint
+        self.snapshot = snapshot
 
 
 class FnSpec:
@@ -195,6 +198,7 @@ class Ex:
                 try:
                     env = self.spec.setup(self)
                     self.scope = Scope(None, env)
+                    self._bind_missing_defaults(env)
                     try:
                         self.exec_block(self.ref.body())
                         result = None
@@ -221,6 +225,29 @@ class Ex:
         if unsupported:
             raise unsupported[0]
         return self.obligations
+
+    def _default_value(self, expr):
+        """value of a parameter default.  Python evaluates defaults ONCE, when the `def` is executed: an object built there
+        is shared by every call (and every instance) - it is marked `deftime`, so a contract can tell it from an object the
+        call itself created"""
+        v = self.ev(expr)
+        if isinstance(v, (VObj, VOpaque)):
+            try:
+                v.deftime = True
+            except AttributeError:
+                pass
+        return v
+
+    def _bind_missing_defaults(self, env):
+        """parameters of the function under contract that the spec's setup() does not provide (e.g. added later, with a
+        default): bound to their defaults, as a call without that argument would"""
+        a = getattr(self.ref.node, "args", None)
+        if a is None:
+            return
+        pos = list(a.posonlyargs) + list(a.args)
+        for prm, d in list(zip(pos[len(pos) - len(a.defaults):], a.defaults)) + [(p, d) for p, d in zip(a.kwonlyargs, a.kw_defaults) if d is not None]:
+            if prm.arg not in env:
+                env[prm.arg] = self._default_value(d)
 
     def choose(self, n, label=""):
         if n <= 1:
@@ -565,6 +592,12 @@ class Ex:
         ls = self.spec.loops.get(ordn)
         if ls is None:
             raise Unsupported(f"loop #{ordn} ({fp_src}) has no invariant in the spec")
+        if ls.snapshot and isinstance(node, ast.For):
+            it = node.iter
+            private = (isinstance(it, ast.Call) and ((isinstance(it.func, ast.Attribute) and it.func.attr == "copy" and not it.args)
+                                                     or (isinstance(it.func, ast.Name) and it.func.id in ("list", "tuple", "set", "frozenset", "sorted") and len(it.args) == 1)))
+            self.oblige(f"loop{ordn}.snapshot[the loop walks a private copy of the collection: its body hands control to code that may change the collection (RuntimeError: changed size during iteration)]",
+                        private, kind="safety", site=fp_src)
         if ls.fingerprint is not None and ls.fingerprint != fp_src:
             raise Unsupported(f"spec drift: loop #{ordn} header is `{fp_src}`, spec expects `{ls.fingerprint}`")
         self.covered_loops.add(ordn)
@@ -1615,12 +1648,12 @@ class Ex:
                 di = i - (len(names) - len(defaults))
                 if di < 0:
                     raise Unsupported(f"missing argument {nm}")
-                env[nm] = self.ev(defaults[di])
+                env[nm] = self._default_value(defaults[di])
         for a, d in zip(params.kwonlyargs, params.kw_defaults):
             if a.arg in kwargs:
                 env[a.arg] = kwargs[a.arg]
             elif d is not None:
-                env[a.arg] = self.ev(d)
+                env[a.arg] = self._default_value(d)
             else:
                 raise Unsupported(f"missing kw argument {a.arg}")
         old = self.scope
